@@ -153,6 +153,35 @@ def run(model: Model, rep: Report) -> None:
     rep.assumptions += ["dict insertion order and float arithmetic are deterministic (language guarantees)", "resource files under pdfminer/cmap are immutable"]
     inv = inventory(model)
     rep.analysed["module_or_class_level_mutables"] = len(inv)
+    # ---------------------------------------------------------------- R9 (shared with C05-R11): nothing of one page's run survives into the next
+    from .c05 import fresh_state_rule
+
+    fresh_state_rule(model, rep, "C12-R9")
+    # ---------------------------------------------------------------- R10: interned names are for ever
+    r10 = rep.rule("C12-R10", "WRITESET", "the interned-name tables (PSLiteralTable, PSKeywordTable) only grow: an entry, once made, is never dropped or replaced - module-level constants such as LITERAL_PAGE are compared by identity with names read later", 2)
+    st_cls = model.cls("pdfminer.psparser.PSSymbolTable")
+    stores10 = 0
+    for mname, mf in sorted(st_cls.methods.items()):
+        for n in walk_no_nested(mf.node):
+            txt = None
+            if isinstance(n, ast.Call) and isinstance(n.func, ast.Attribute) and unparse(n.func.value) == "self.dict" and n.func.attr in MUTATORS:
+                txt = unparse(n)
+            elif isinstance(n, ast.Delete) and any(unparse(t).startswith("self.dict") for t in n.targets):
+                txt = unparse(n)
+            elif isinstance(n, (ast.Assign, ast.AnnAssign, ast.AugAssign)):
+                tgts = n.targets if isinstance(n, ast.Assign) else [n.target]
+                for t in tgts:
+                    if unparse(t) == "self.dict" and mname != "__init__":
+                        txt = unparse(n)
+                    elif isinstance(t, ast.Subscript) and unparse(t.value) == "self.dict":
+                        stores10 += 1
+                        g = {"".join(unparse(x).split()) for x, pol in _guard_tests(mf, n) if not pol}
+                        key = unparse(t.slice)
+                        r10.check(any(x == f"{key}inself.dict" for x in g), site(mf, n), mf.qualname, f"`{unparse(n)}` runs only when `{key}` is not in the table yet", why=f"guards {sorted(g)}: an existing entry can be replaced, so a name interned at import time stops being identical to the same name read later")
+            if txt is not None:
+                r10.violation(site(mf, n), mf.qualname, txt, "the table is emptied, shrunk or replaced after construction: constants interned at import time (LITERAL_PAGE, KEYWORD_OBJ, ...) are no longer the objects that later lookups return, so documents read afterwards are understood differently from documents read before")
+    init10 = st_cls.methods.get("__init__")
+    r10.check(init10 is not None and stores10 >= 1, site(init10) if init10 is not None else "pdfminer/psparser.py:0", st_cls.qualname, "the table is created in __init__ and filled by intern only", why="no store found")
     # ---------------------------------------------------------------- R1
     r1 = rep.rule("C12-R1", "EFFECTS", "global state inventory: no function writes module/class-level state outside the reviewed memo tables", 20)
     writes = global_writes(model, inv)
